@@ -94,7 +94,7 @@ def dump_once(case, root, tag):
     for i, nrows in enumerate(shape, start=1):
         srcs.append([dict(a=k, b=('x%d' % k if text == 'ascii' else u'é\U0001F600%d' % k)) for k in range(1, nrows + 1)])
     from ..common import tuple_source
-    drops = bool(case.get('drops')) and case['incoming'] in ('fresh', 'package_totals')      # (an earlier dumper in the flow would raise on the row)
+    drops = bool(case.get('drops')) and case['incoming'] in ('fresh', 'package_totals', 'same_dir_again')      # (an earlier dumper in the flow would raise on the row)
     if drops:
         # one row per non-empty resource that the dumper's own validator (on_error=drop) throws away: it is not written, so it is not counted
         for rows in srcs:
@@ -107,6 +107,14 @@ def dump_once(case, root, tag):
     if drops:
         from dataflows.base.schema_validator import drop
         opts['validator_options'] = dict(on_error=drop)
+    if case['incoming'] == 'same_dir_again':
+        # an earlier dump of other rows (one more row per resource) into the very same target, same options: afterwards the
+        # descriptor on disk must describe THIS dump (with add_filehash_to_path the data files of both dumps coexist)
+        os.makedirs(out, exist_ok=True)
+        other = tuple_source([('res%d' % (i + 1), [('a', 'integer'), ('b', 'string')], [dict(a=0, b='earlier')] + [dict(r_) for r_ in rows])
+                              for i, rows in enumerate(srcs)])
+        first = DF.dump_to_path(out, **copy.deepcopy(opts)) if case['target'] == 'path' else DF.dump_to_zip(os.path.join(out, 'o.zip'), **copy.deepcopy(opts))
+        DF.Flow(other, first).process()
     if case['target'] == 'path':
         dumper = DF.dump_to_path(out, **opts)
     else:
@@ -119,7 +127,7 @@ def dump_once(case, root, tag):
         yield package.pkg
         yield from package
     pre = os.path.join(root, tag + '-pre')
-    if case['incoming'] == 'fresh':
+    if case['incoming'] in ('fresh', 'same_dir_again'):
         links = [src, tap, dumper]
     elif case['incoming'] == 'second_dumper':
         links = [src, DF.dump_to_path(pre, counters=copy.deepcopy(COUNTERS[case['counters']])), tap, dumper]
@@ -241,7 +249,7 @@ def run():
         # keep every counters x incoming x filehash x target combination at least once
         seen, keep = set(), []
         for c in cases:
-            k = (c['counters'], c['incoming'], c['filehash'], c['target'], c['format'], c.get('drops') and c['incoming'] in ('fresh', 'package_totals'))
+            k = (c['counters'], c['incoming'], c['filehash'], c['target'], c['format'], c.get('drops') and c['incoming'] in ('fresh', 'package_totals', 'same_dir_again'))
             if k not in seen:
                 seen.add(k)
                 keep.append(c)
@@ -283,7 +291,7 @@ def run():
         elif not v['ModelEq']:
             rep.model_drift('recorded counters differ from DumpStats.tla although every C09 clause holds', c)
     rep.sample(dict(case=cases[0], recorded=recs[0]))
-    rep.notes['cases_total_enumerated_by_tlc'] = 16384
+    rep.notes['cases_total_enumerated_by_tlc'] = 20480
     rep.assumptions += ['the harness measures size, md5 and data-row count of every written file itself (csv.reader / json.loads)',
                         'a counter that is enabled but absent from the written descriptor counts as not describing the bytes']
     return rep.finish(exhaustive=(t == 'thorough'))
